@@ -345,27 +345,27 @@ func (p *CPU) execInst(bus *device.Bus, as abi.As, arg *abi.AsRawArgument) error
 	case riscv.AMULW:
 		p.RegX[arg.Rd] = RVUInt(int32(p.RegX[arg.Rs1]) * int32(p.RegX[arg.Rs2]))
 	case riscv.ADIVW:
-		if p.RegX[arg.Rs2] != 0 {
+		if uint32(p.RegX[arg.Rs2]) != 0 {
 			p.RegX[arg.Rd] = RVUInt(int32(p.RegX[arg.Rs1]) / int32(p.RegX[arg.Rs2]))
 		} else {
 			v := int64(-1)
 			p.RegX[arg.Rd] = RVUInt(v)
 		}
 	case riscv.ADIVUW:
-		if p.RegX[arg.Rs2] != 0 {
+		if uint32(p.RegX[arg.Rs2]) != 0 {
 			p.RegX[arg.Rd] = RVUInt(int32(uint32(p.RegX[arg.Rs1]) / uint32(p.RegX[arg.Rs2])))
 		} else {
 			v := int64(-1)
 			p.RegX[arg.Rd] = RVUInt(v)
 		}
 	case riscv.AREMW:
-		if p.RegX[arg.Rs2] != 0 {
+		if uint32(p.RegX[arg.Rs2]) != 0 {
 			p.RegX[arg.Rd] = RVUInt(int32(p.RegX[arg.Rs1]) % int32(p.RegX[arg.Rs2]))
 		} else {
 			p.RegX[arg.Rd] = RVUInt(int32(p.RegX[arg.Rs1]))
 		}
 	case riscv.AREMUW:
-		if p.RegX[arg.Rs2] != 0 {
+		if uint32(p.RegX[arg.Rs2]) != 0 {
 			p.RegX[arg.Rd] = RVUInt(int32(uint32(p.RegX[arg.Rs1]) % uint32(p.RegX[arg.Rs2])))
 		} else {
 			p.RegX[arg.Rd] = RVUInt(int32(p.RegX[arg.Rs1]))
